@@ -52,7 +52,7 @@ def u1_lemmas(tier, ndjson=(0, 1), havoc=(0, 1)):
     for K, nd, hv in plan:
         ls.append(Lemma("U1.parseMessage.K%d.%s.%s" % (K, "ndjson" if nd else "json", "havoc" if hv else "fresh"),
                         "verifHarness_U1_ParseMessage", FU1,
-                        splits=[{"K": K - 2, "ndjson": nd, "havoc": hv, "copy": cp} for cp in ((1,) if tier == "quick" else (1, 0))],
+                        splits=[{"K": K - 2, "ndjson": nd, "havoc": hv, "copy": cp, "wide": 0} for cp in ((1,) if tier == "quick" else (1, 0))],
                         split_depth="auto", intr=Stage2SummIntrinsics, scale=SCALE_U1,
                         desc="the whole synchronous parseMessage path on every message with %d structural tokens at gaps from {1,5,61} "
                              "bytes (so messages span up to %d 64-byte blocks and, with the index limit scaled to 3, several index "
@@ -63,6 +63,16 @@ def u1_lemmas(tier, ndjson=(0, 1), havoc=(0, 1)):
                         bound="%d tokens, message <= %d bytes; index limit scaled 1408 -> 3 (indexSize 1536 -> 131); strings without escapes; "
                               "parseNumber = its summary" % (K, 61 * (K - 1) + 1),
                         expect_reach=["U1.returned"]))
+    # index limit 2: with three tokens the first index buffer is handed over after two entries, the second of which may be a
+    # dangling non-markup index (a string or scalar start) that has to be stripped and re-sent with the next buffer
+    for nd in ndjson:
+        if 0 in havoc:
+            ls.append(Lemma("U1.parseMessage.K3.%s.fresh.limit2" % ("ndjson" if nd else "json"), "verifHarness_U1_ParseMessage", FU1,
+                            splits=[{"K": 1, "ndjson": nd, "havoc": 0, "copy": 1, "wide": 1}], split_depth="auto", intr=Stage2SummIntrinsics,
+                            scale={"indexSize": "130"},
+                            desc="as U1.parseMessage with the index limit scaled to 2, so that 3-token messages with gaps from {1,5,131} (up to 5 blocks) "
+                                 "exercise the hand-over of an index buffer that ends on a non-markup index (strip, restore, position bookkeeping)",
+                            bound="3 tokens, message <= 263 bytes; index limit scaled 1408 -> 2 (indexSize 1536 -> 130)", expect_reach=["U1.returned"]))
     return ls
 
 
